@@ -42,6 +42,10 @@ def main(argv):
         code, log = sh(["/venv/bin/python", "demo.py"], cwd=wt, env=env, timeout=600)
         out["demo_without_change_exit"] = code
         code, log = sh(["git", "apply", os.path.join(cand, "patch.diff")], cwd=wt)
+        if code != 0:
+            # written against an earlier HEAD (before a later fix: commit touched the same lines): three-way merge
+            code, log = sh(["git", "apply", "-3", os.path.join(cand, "patch.diff")], cwd=wt)
+            out["patch_applied_three_way"] = code == 0
         out["patch_applies"] = code == 0
         if code != 0:
             out["apply_log"] = log[-500:]
